@@ -302,6 +302,11 @@ def check_cli(acc, tmp, docs, src, tier):
             p = os.path.join(root, rel)
             os.makedirs(os.path.dirname(p), exist_ok=True)
             open(p, 'wb').write(texts[n].encode('utf-8'))
+        try:      # a symbolic link to another score of the same directory is an input file like any other
+            os.symlink(os.path.join(root, 'a.krn'), os.path.join(root, 'link_to_a.krn'))
+            layout['link_to_a.krn'] = layout['a.krn']
+        except OSError:
+            pass
         open(os.path.join(root, 'notes.txt'), 'wb').write(b'unrelated\n')
         open(os.path.join(root, 'sub', 'readme.md'), 'wb').write(b'unrelated\n')
         before = snapshot_tree(root)
@@ -351,6 +356,54 @@ def check_cli(acc, tmp, docs, src, tier):
         if bad:
             acc.violation(Viol('cli-directory', 'other-files-touched', case2, None, bad))
     acc.sample({'cli': 'python -m kernpy --kern2ekern --input_path <dir> -r', 'layout': list(layout)}, cap=2)
+
+
+def check_long_cells(acc, tmp, tier):
+    """few rows, VERY long multi-byte lyric cells: files of 320 KiB (quick) and 1.1 MiB (thorough) whose byte offsets 256 KiB / 1 MiB fall INSIDE a character
+    (padding found by search): load == loads, and dump writes exactly dumps (a non-ASCII export longer than 256 KiB)"""
+    sizes = [(45, 262144)] if tier == 'quick' else [(45, 262144), (155, 1048576)]
+    for nrows, boundary in sizes:
+        body = ['**kern\t**text', '*clefG2\t*', '=1\t=1'] + [f'4c\t{"漢" * 2400}{r}' for r in range(nrows)] + ['==\t==', '*-\t*-']
+        pad = None
+        for k in range(0, 8):
+            b = ('!!!PAD: ' + 'x' * k + '\n' + '\n'.join(body) + '\n').encode('utf-8')
+            if len(b) > boundary and b[boundary] & 0xC0 == 0x80:
+                pad = k
+                break
+        if pad is None:
+            acc.caps.append(f'long cells: no padding puts byte {boundary} inside a character')
+            continue
+        text = '!!!PAD: ' + 'x' * pad + '\n' + '\n'.join(body) + '\n'
+        case = {'doc': f'long-cells-{boundary}', 'text': f'({nrows} rows with a lyric cell of 2 400 three-byte characters, padded by {pad})', 'long_cells': tier, 'flavour': 'non-ascii-long'}
+        p = os.path.join(tmp, 'in', f'longcells{boundary}.krn')
+        os.makedirs(os.path.dirname(p), exist_ok=True)
+        with open(p, 'wb') as f:
+            f.write(text.encode('utf-8'))
+        acc.count('evaluations')
+        acc.count('transitions', 4)
+        acc.nontriv(('long-cells', boundary))
+        try:
+            d1, e1 = kp.load(p)
+            d2, e2 = kp.loads(text)
+            o1, o2 = observations(d1, e1), observations(d2, e2)
+        except Exception as e:  # noqa
+            acc.violation(Viol('load-vs-loads', 'raises', case, None, f'{type(e).__name__}: {str(e)[:80]}'))
+            continue
+        acc.count('traces')
+        if o1 != o2:
+            k = next(k for k in o1 if o1[k] != o2[k])
+            acc.violation(Viol('load-vs-loads', 'loading-the-file-differs-from-loading-its-text', dict(case, observation=k), str(o2[k])[:200], str(o1[k])[:200]))
+        for on, kw in (('default', {}), ('ekern', {'encoding': E.eKern})):
+            s = kp.dumps(d2, **kw)
+            target = os.path.join(tmp, 'out', f'longcells{boundary}_{on}', 'x.krn')
+            try:
+                kp.dump(d2, target, **kw)
+                b = open(target, 'rb').read()
+            except Exception as e:  # noqa
+                acc.violation(Viol('dump-vs-dumps', 'dump-raises', dict(case, options=on), 'file written', f'{type(e).__name__}: {str(e)[:80]}'))
+                continue
+            if b != s.encode('utf-8'):
+                acc.violation(Viol('dump-vs-dumps', 'file-content-differs-from-dumps', dict(case, options=on), f'{len(s.encode("utf-8"))} bytes', f'{len(b)} bytes'))
 
 
 WIDTH_DOCS = {
@@ -432,6 +485,7 @@ def run(ctx):
         ctx.sample({'doc': docs[1][0], 'text': '\r\n'.join(docs[1][1]), 'variant': 'CRLF, no final newline'})
         check_cli(ctx, tmp, docs, src, ctx.tier)
         check_converter_sequences(ctx, tmp, src)
+        check_long_cells(ctx, tmp, ctx.tier)
     finally:
         shutil.rmtree(tmp, ignore_errors=True)
 
@@ -441,6 +495,9 @@ def replay(case):
     tmp = tempfile.mkdtemp(prefix='kv20_')
     src = os.path.abspath(os.environ.get('KERNPY_SRC', '/repo'))
     try:
+        if 'long_cells' in case:
+            check_long_cells(acc, tmp, case['long_cells'])
+            return acc.viol
         if 'converter_sequence' in case or case.get('mode') == 'directory-of-different-widths':
             check_converter_sequences(acc, tmp, src)
             return acc.viol
